@@ -267,6 +267,23 @@ Theorem C02_reader_frames : forall fs k rest, Forall frame_wf fs ->
   (fs ++ fst (read_frames k rest), snd (read_frames k rest)).
 Proof. exact read_frames_exact. Qed.
 
+(* What sm_check's ACCEPTANCE means, for every observed sequence whatsoever (the two sentences at
+   the level of the map): between two hand-outs of one stream id lies a lookup of it (= the answer
+   on that id has been read) whether or not the first request was orphaned meanwhile; and a lookup
+   that yields a handler yields the request id and token that were allocated with exactly that id. *)
+Theorem C02_sm_no_share : forall ops rs i j sid r1 t1 t1' r2 t2 t2', sm_check ops rs = true ->
+  (i < j)%nat ->
+  nth_error ops i = Some (OpAlloc r1 t1) -> nth_error rs i = Some (RAlloc (AllocOk sid) t1') ->
+  nth_error ops j = Some (OpAlloc r2 t2) -> nth_error rs j = Some (RAlloc (AllocOk sid) t2') ->
+  exists k, (i < k < j)%nat /\ nth_error ops k = Some (OpLookup sid).
+Proof. intros ops rs. exact (sm_check_no_share ops [] rs). Qed.
+
+Theorem C02_sm_delivery : forall ops rs k sid rid tok, sm_check ops rs = true ->
+  nth_error ops k = Some (OpLookup sid) -> nth_error rs k = Some (RLookup (LHandler rid tok)) ->
+  exists i t', (i < k)%nat /\ nth_error ops i = Some (OpAlloc rid tok) /\
+               nth_error rs i = Some (RAlloc (AllocOk sid) t').
+Proof. exact sm_check_delivery. Qed.
+
 (* ---- non-vacuity: concrete schedules and states ---- *)
 Example C02_ex_check_rejects :
   sm_check [OpAlloc 1 10; OpAlloc 2 11] [RAlloc (AllocOk 0) 10; RAlloc (AllocOk 0) 11] = false /\
@@ -425,3 +442,5 @@ Print Assumptions C02_dispatch_lookup.
 Print Assumptions C02_dispatch_negative.
 Print Assumptions C02_tick.
 Print Assumptions C02_tick_mono.
+Print Assumptions C02_sm_no_share.
+Print Assumptions C02_sm_delivery.
